@@ -288,6 +288,7 @@ func modelField(ans, name string) (out string, evs []string) {
 
 var collidingNames []string
 var collideOnce sync.Once
+var wrapOnce sync.Once
 
 // names that share the first 12 bits of sha1 (same lock bucket and level-1 directory of the file store)
 func collidePool() []string {
@@ -449,6 +450,14 @@ func runStoreHistory(c *core.Ctx, m *core.Model, r *rand.Rand, p storeProfile, h
 	dir := filepath.Join(workdir, fmt.Sprintf("fs-%s-%d-%d", p.name, c.Seed, hidx))
 	os.MkdirAll(dir, 0o755)
 	defer os.RemoveAll(dir)
+	// once per process: park the file store's 4-digit id counter just below its wrap, so that the first histories
+	// straddle it (ids are then not in string order).  Only once: cycling the counter repeatedly within one second
+	// would manufacture id collisions that 10000 deliveries per second would be needed for.
+	wrapOnce.Do(func() {
+		next := file.VerifNextID()
+		file.VerifSkipIDs((10000 - next - 12 + 10000) % 10000)
+		c.H("file-id-counter-parked-near-wrap")
+	})
 	bm, err1 := newBackend("mem", cap, maxkb, "")
 	bf, err2 := newBackend("file", cap, 0, dir)
 	if err1 != nil || err2 != nil {
@@ -502,6 +511,19 @@ func runStoreHistory(c *core.Ctx, m *core.Model, r *rand.Rand, p storeProfile, h
 		}
 		if maxkb == 0 && om != of && o.kind != "visit" {
 			c.Fail("backends-equivalent", append([]string{}, trace...), "mem: "+om+"  file: "+of, "")
+		}
+		if o.kind == "list" {
+			// every listed message can be fetched by its id and is itself
+			for _, be := range []*backend{bm, bf} {
+				ms, _ := be.st.GetMessages(o.box)
+				for _, lm := range ms {
+					g, err := be.st.GetMessage(o.box, lm.ID())
+					if err != nil || g == nil || g.ID() != lm.ID() {
+						c.Fail("listed-is-gettable", append([]string{}, trace...), fmt.Sprintf("%s store lists id %s in %q but GetMessage answers %v", be.kind, lm.ID(), o.box, err), "")
+						break
+					}
+				}
+			}
 		}
 		if o.kind == "latest" && strings.HasPrefix(om, "msg:") {
 			// 'latest' is the last entry of the listing, on both back-ends
